@@ -317,6 +317,17 @@ func TestCheck(t *testing.T) {
 			Family string `json:"family"`
 		}
 		r.DecodeReplay(&probe)
+		if probe.Family == "dns-close" {
+			var dc DnsCloseCase
+			r.DecodeReplay(&dc)
+			k, d := executeDnsClose(t, dc)
+			r.Eval(1)
+			r.Transition(4)
+			if k != "" {
+				r.Fail(k, fmt.Sprintf("%s: %s", dc, d), dc.Up+dc.Down, dc)
+			}
+			return
+		}
 		if probe.Family == "ws-tunnel" {
 			var wc WsCase
 			r.DecodeReplay(&wc)
@@ -378,6 +389,23 @@ func TestCheck(t *testing.T) {
 		recordWs(r, wc, k, d)
 		if i%2003 == 0 {
 			r.Sample(map[string]any{"case": wc.String(), "outcome": k})
+		}
+	}
+	// DNS tunnel connections: close before the receiving application has read
+	for i, dc := range dnsCloseCases(193) {
+		idx := base + len(ws) + 100 + i
+		if !r.Mine(idx) || r.OverBudget() {
+			continue
+		}
+		dc := dc
+		var k, d string
+		r.Guard(idx, 120*time.Second, "hang|dns-close", dc.String(), dc, func() { k, d = executeDnsClose(t, dc) })
+		r.Eval(1)
+		r.Transition(4)
+		r.State(mc.Hash("dns-close", dc.String(), k))
+		r.Nontrivial(mc.Hash(dc.String()))
+		if k != "" {
+			r.Fail(k, fmt.Sprintf("%s: %s", dc, d), dc.Up+dc.Down, dc)
 		}
 	}
 	r.Note("cases_total", len(all))
